@@ -101,7 +101,7 @@ def core_shard(seed: int, shard: int, n: int, opts: dict) -> dict:
             reals.append(None)
             continue
         reals.append(real)
-        for rq in engine.model_requests(c, real["xd"]):
+        for rq in engine.model_requests(c, real):
             reqs.append(rq)
         idx.append(i)
     answers = driver.run_batch(reqs) if reqs else []
